@@ -633,6 +633,36 @@ def check_joint(ctx, rep):
                       f"the same id get the same attribute name, Parametric.__setattr__ then evicts the earlier one, and a likelihood or Jacobian term silently drops out of the joint")
 
 
+def check_container_keeps_every_component(ctx, rep, rule='C14.C', prefix=''):
+    """every object handed to a Container is registered, and every registered callable is handed out: no test of identity / id / membership decides whether a component
+    takes part (an object listed twice is listed twice on purpose — a concatenation [a, b, a]; two transformed parameters without an id are two Jacobian terms)"""
+    cont = ctx.classes.get('torchtree.core.container.Container')
+    if cont is None:
+        rep.undecided(rule, prefix + 'Container::components', '', 'Container not found')
+        return
+    init = cont.methods.get('__init__')
+    loops = [n for n in ast.walk(init) if isinstance(n, ast.For)] if init is not None else []
+    regs = [c for lp in loops for st in lp.body for c in ast.walk(st) if isinstance(st, ast.Expr) and isinstance(c, ast.Call) and isinstance(c.func, ast.Name) and c.func.id == 'setattr']
+    nested = [c for lp in loops for st in lp.body if isinstance(st, (ast.If, ast.Try, ast.While)) for c in ast.walk(st) if isinstance(c, ast.Call) and isinstance(c.func, ast.Name) and c.func.id == 'setattr']
+    key = prefix + 'Container.__init__::every-listed-object-is-registered'
+    if not regs and not nested:
+        rep.undecided(rule, key, where(cont.module, init) if init else '', 'registration loop (`for obj in objects: setattr(self, …, obj)`) not found')
+    else:
+        rep.check(rule, key, bool(regs) and not nested, where(cont.module, (nested or regs)[0]), {'unconditional': len(regs), 'conditional': len(nested)},
+                  "Container.__init__ registers an object only under a condition: a component that is listed again (a concatenation [a, b, a], a distribution used for two blocks) is "
+                  "dropped, so the holder has fewer entries than its specification and the joint one term less")
+    for meth in ('callables', 'params'):
+        f = cont.methods.get(meth)
+        if f is None:
+            continue
+        skips = [n for n in ast.walk(f) if isinstance(n, ast.Continue)] + \
+                [n for n in ast.walk(f) if isinstance(n, ast.If) and any(isinstance(y, (ast.Yield, ast.YieldFrom)) for x in n.body for y in ast.walk(x))
+                 and not any(isinstance(c, ast.Call) and isinstance(c.func, ast.Name) and c.func.id in ('isinstance', 'callable') for c in ast.walk(n.test))]
+        rep.check(rule, prefix + f"Container.{meth}::hands-out-every-component", not skips, where(cont.module, skips[0] if skips else f), {'filters': len(skips)},
+                  f"Container.{meth} leaves components out (`{norm_text(skips[0])[:50] if skips else ''}`): a callable that was registered — the Jacobian of a second transformed "
+                  f"parameter with the same id, or None — silently drops out of the joint density")
+
+
 class _W:
     """words over matrix atoms for deciding A·Aᵀ = Σ: a word is a list of (name, inverted, transposed); ('chol:X', …) is the Cholesky factor of the word X"""
 
@@ -980,6 +1010,7 @@ def run(ctx, rep):
         rep.undecided('C14.C', 'check_mvn_entropy', '', str(u))
     check_mvn_construction(ctx, rep)
     check_analytic_entropy_terms(ctx, rep)
+    check_container_keeps_every_component(ctx, rep)
     # options of the objectives reach the constructor parameter of their own name
     from props import c09
     c09.check_positional_options(ctx, rep, rule='C14.O', only=lambda ci: ci.module.name.startswith('torchtree.variational'))
